@@ -341,6 +341,35 @@ func (rw *rewriter) hasRepoIfaceCall(n ast.Node) bool {
 	return found
 }
 
+// hasLockCall: does the node acquire a mutex (Lock / RLock on a sync.Mutex or RWMutex)?
+func (rw *rewriter) hasLockCall(n ast.Node) bool {
+	found := false
+	ast.Inspect(n, func(x ast.Node) bool {
+		if found {
+			return false
+		}
+		if _, ok := x.(*ast.FuncLit); ok {
+			return false
+		}
+		ce, ok := x.(*ast.CallExpr)
+		if !ok {
+			return true
+		}
+		se, ok := ce.Fun.(*ast.SelectorExpr)
+		if !ok || (se.Sel.Name != "Lock" && se.Sel.Name != "RLock") || len(ce.Args) != 0 {
+			return true
+		}
+		if t := rw.pkg.TypesInfo.TypeOf(se.X); t != nil {
+			ts := t.String()
+			if strings.Contains(ts, "sync.Mutex") || strings.Contains(ts, "sync.RWMutex") || strings.Contains(ts, "simsync.") {
+				found = true
+			}
+		}
+		return true
+	})
+	return found
+}
+
 func hasRecv(n ast.Node) bool {
 	found := false
 	ast.Inspect(n, func(x ast.Node) bool {
@@ -386,7 +415,7 @@ func (rw *rewriter) yields(f *ast.File, index bool) bool {
 					_ = st
 				default:
 					for _, h := range header(inner) {
-						if hasRecv(h) || rw.hasRepoIfaceCall(h) {
+						if hasRecv(h) || rw.hasRepoIfaceCall(h) || rw.hasLockCall(h) {
 							before = true
 						}
 					}
